@@ -600,7 +600,7 @@ class C12(common.Prop):
             "(selection, removal, bbox, interpolate, slice_step, select_frames, both dropouts, flip, augment2d, normalize, "
             "normalize_distribution, focus, copy, torch(), tensorflow()) with a malformed stream (bad names, steps <= 0, indexes out of "
             "range, unobserved reference points, zero deviations); every case carries at least one operation (all count as non-trivial); "
-            "distinct by content hash of start pose + seeds")
+            "distinct by content hash of start pose + seeds " "Names carry 1-4 byte UTF-8 code points; arrays arrive in C / Fortran / strided layout and partially masked; the final write/read compares dimensions and fps too and is repeated after an edited earlier read of the same bytes.")
     TRUSTED = ["Coq 8.16.1 kernel", "harness/translate_c12.py (fail-closed ast translator)", "extraction: ExtrOcamlBasic only; runner/driver.ml",
                "harness/c12.py observers (mask polarity, errors -> one class)"]
     ASSUMPTIONS = ["numpy.ma / torch / tensorflow kernels propagate masks as transcribed in model/C12_Model.v (sampled by the correspondence)",
